@@ -11,7 +11,7 @@ RULE = ("generated directory trees (depth <= 3, subdirectories sub/ and d1/d2/) 
         "Ingest::ingest_file and given to the model as a file-system value; the reference is the composition of separately "
         "assembled parts (includes assembled on their own and spliced as raw bytes, imports pasted); plus an ISOLATION family: one "
         "include with or without labels of its own, the same macro / expression macro / label name on both sides, or a name that only "
-        "the other side defines (expected: own result, resp. the matching undeclared-name error). non-trivial = at least "
+        "the other side defines (expected: own result, resp. the matching undeclared-name error); plus a SAME-LITERAL family: libraries in a/ and b/ whose directives use the same path string for different files. non-trivial = at least "
         "two files")
 EXHAUSTIVE = {"quick": False, "thorough": False}
 ASSUMPTIONS = ["std::fs semantics are modelled by Asm/Ingest.lean's Tree (files, directories, symlinks)"]
@@ -29,6 +29,12 @@ def cases(rng, tier):
     for _ in range(n // 3):
         top, entries, want, scen = F.gen_isolation(rng)
         c = {"line": F.line(top, entries), "tags": ["isolation", scen], "nfiles": len(entries)}
+        if isinstance(want, bytes): c["want_ok"] = C.hexs(want)
+        elif isinstance(want, tuple): c["want_err"] = want[1]
+        cs.append(c)
+    for _ in range(n // 5):
+        top, entries, want, scen = F.gen_same_literal(rng)
+        c = {"line": F.line(top, entries), "tags": ["same-literal", scen], "nfiles": len(entries)}
         if isinstance(want, bytes): c["want_ok"] = C.hexs(want)
         elif isinstance(want, tuple): c["want_err"] = want[1]
         cs.append(c)
